@@ -27,10 +27,17 @@ ASSUMPTIONS = [
 ]
 
 
-def _stub_gp(h, d, ny=2):
+def _stub_gp(h, d, ny=2, smooth=True):
+    """smooth=True: replay through a fixed smooth concrete predictive mean/variance (needed where the replay
+    differentiates numerically); smooth=False: replay the solver model's own values of mu and var"""
     dt = object if h.sym else float
-    mu, dmu = gc.smooth_ufunc(h, "mu", d, seed=1)
-    var, dvar = gc.smooth_ufunc(h, "var", d, seed=2, positive=True)
+    if smooth:
+        mu, dmu = gc.smooth_ufunc(h, "mu", d, seed=1)
+        var, dvar = gc.smooth_ufunc(h, "var", d, seed=2, positive=True)
+    else:
+        mu, var = h.ufunc("mu", d), h.ufunc("var", d)
+        dmu = [h.ufunc(f"mu_d{k}", d) for k in range(d)]
+        dvar = [h.ufunc(f"var_d{k}", d) for k in range(d)]
 
     class GP:
         def __init__(self):
@@ -50,10 +57,10 @@ def _stub_gp(h, d, ny=2):
     return GP(), mu, var
 
 
-def _acq(h, kind, d):
+def _acq(h, kind, d, smooth=True):
     import inference.gp.acquisition as aq
     h.patch(aq, erf=funcs.erf, erfcx=funcs.erfcx)
-    gp, mu, var = _stub_gp(h, d)
+    gp, mu, var = _stub_gp(h, d, smooth=smooth)
     A = {"EI": aq.ExpectedImprovement, "UCB": aq.UpperConfidenceBound, "MV": aq.MaxVariance}[kind]
     a = A() if kind != "UCB" else A(kappa=h.real("kappa", nonneg=True))
     a.update_gp(gp)
@@ -80,18 +87,28 @@ def _max(h, y):
 
 @unit("C18", quick=[dict(d=1), dict(d=2)], thorough=[dict(d=3)], cost=4, timeout_ms=60000)
 def expected_improvement_both_branches(h, d):
-    aq, a, gp, mu, var = _acq(h, "EI", d)
+    aq, a, gp, mu, var = _acq(h, "EI", d, smooth=False)
     x = h.real("x", d)
     ymax = _max(h, gp.y)
     h.eq("incumbent == max of the data", a.mu_max, ymax)
     ref, Z = _ei_ref(h, mu, var, ymax, x)
+    if not h.sym and not (var(x) > 0):
+        from symnp.harness import ReplayMismatch
+        raise ReplayMismatch("model variance not positive")
     val = a(x)
     h.eq("EI == sigma (Z Phi(Z) + phi(Z))  [branch chosen by Z < -3 on this path]", val, ref)
     of = a.opt_func(x)
     h.eq("opt_func == -log EI", of, -h.log(val))
     v2, g = a.opt_func_gradient(x)
     h.eq("opt_func_gradient value == opt_func", v2, of)
-    h.is_gradient("opt_func_gradient == d opt_func / d x", lambda t: a.opt_func(t), x, np.atleast_1d(g))
+
+
+@unit("C18", quick=[dict(d=1), dict(d=2)], thorough=[dict(d=3)], cost=4, timeout_ms=60000)
+def expected_improvement_gradient(h, d):
+    aq, a, gp, mu, var = _acq(h, "EI", d, smooth=True)
+    x = h.real("x", d)
+    v2, g = a.opt_func_gradient(x)
+    h.is_gradient("opt_func_gradient == d opt_func / d x  [branch chosen by Z < -3 on this path]", lambda t: a.opt_func(t), x, np.atleast_1d(g))
 
 
 @unit("C18", quick=[dict(kind="UCB", d=1), dict(kind="UCB", d=2), dict(kind="MV", d=1), dict(kind="MV", d=2)], thorough=[dict(kind="UCB", d=3), dict(kind="MV", d=3)])
